@@ -138,7 +138,7 @@ func (compilation *compilation) finalizeUsingStatements(tc *typechecker) error {
 	for _, name := range names {
 		uc := compilation.iteaToUsingCheck[name]
 		if !uc.used {
-			return tc.errorf(uc.pos, "predeclared identifier itea not used")
+			return checkError(uc.path, uc.pos, "predeclared identifier itea not used")
 		}
 		if !uc.toBeEmitted {
 			if len(uc.itea.Lhs) != 1 || len(uc.itea.Rhs) != 1 {
